@@ -239,6 +239,30 @@ func eachValueRoundTrips(format string, vals []zed.Value) bool {
 	return true
 }
 
+// faultPoints lists the sink writes at which a fault is injected: every write when the output takes at most 300, else
+// the first 100, the last 100 and 100 evenly spaced ones in between (each injected run costs O(W), so enumerating
+// all of a W-write output is quadratic; only the thorough tier generates outputs that long).
+func faultPoints(W int) []int {
+	var ks []int
+	if W <= 300 {
+		for k := 1; k <= W; k++ {
+			ks = append(ks, k)
+		}
+		return ks
+	}
+	for k := 1; k <= 100; k++ {
+		ks = append(ks, k)
+	}
+	step := (W - 200) / 100
+	for i, k := 0, 101; i < 100 && k <= W-100; i, k = i+1, k+step {
+		ks = append(ks, k)
+	}
+	for k := W - 99; k <= W; k++ {
+		ks = append(ks, k)
+	}
+	return ks
+}
+
 func runCase(c Case) *vt.Outcome {
 	o := &vt.Outcome{}
 	o.Label("format:"+c.Format, "via:"+c.Via)
@@ -284,7 +308,7 @@ func runCase(c Case) *vt.Outcome {
 	if W >= 3 {
 		o.Label("multi-write")
 	}
-	for k := 1; k <= W; k++ {
+	for _, k := range faultPoints(W) {
 		for _, mode := range []string{"oneshot", "sticky", "short"} {
 			r, err := c.runOnce(k, mode)
 			if err != nil {
@@ -330,7 +354,7 @@ var prop = &vt.Prop[Case]{
 	Rule: "case = (format in {zng,zson,zjson,json,csv,tsv,zeek,table,text,vng}, via anyio.NewWriter or emitter.NewFileFromURI (bufwriter), writer options, generated value sequence); " +
 		"for EVERY sink write position k=1..W of the fault-free run and every mode in {oneshot error, sticky error, short write+ErrShortWrite} the run is repeated and some Write or Close must return an error; " +
 		"fault-free output must be readable with the same value count (zng: identical values). " +
-		"A unit (format,via,k-class,mode) is non-trivial when k is an internal (mid) write, a flush inside Close, or the output spans >=3 sink writes; distinct = distinct (case digest, unit).",
+		"Outputs of more than 300 sink writes (thorough tier only) are injected at their first 100, last 100 and 100 evenly spaced writes. A unit (format,via,k-class,mode) is non-trivial when k is an internal (mid) write, a flush inside Close, or the output spans >=3 sink writes; distinct = distinct (case digest, unit).",
 	Gen: genCase,
 	Run: runCase,
 }
